@@ -125,9 +125,13 @@ def rule_flow_config_names(ctx):
     for nid, b in sorted(prog.bodies.items()):
         if not (nid.startswith(('sync::builder::CacheBuilder::', 'unsync::builder::CacheBuilder::')) and b.name in CONFIG and b.argc == 2):
             continue
-        sx = ctx.symex(inline_depth=2)
+        sx = ctx.symex(inline_depth=2, inner_diverge=True)
         for p in sx.run(nid):
             if p.diverged:
+                # a setter only records the value: whether a configuration is acceptable is decided when the cache is built (a chain that
+                # overwrites a too-long duration before build() is legal, and a builder that is never built never panics)
+                r.violate(nid, 'setter-panics', b.name, 'builder setter %s can panic: build*() is the only place that rejects a configuration' % nid, where=ctx.where(nid),
+                          expected='the setter stores the value; ensure_expirations_or_panic runs in build / build_with_hasher')
                 continue
             ret = p.ret
             if isinstance(ret, tuple) and ret and ret[0] == 'overlay' and ret[1] == ('param', 1):
